@@ -232,10 +232,18 @@ func (j *Join) ParallelJoinFunc(l, r *HashedTable) ([]any, error) {
 	var wg sync.WaitGroup
 	slice := make([]any, 0)
 
+	var failure error
 	for lk, lv := range l.Keys {
 		wg.Add(1)
 		go func(lk string, lv *map[string]any) {
 			defer wg.Done()
+			defer func() {
+				if r := recover(); r != nil {
+					mut.Lock()
+					failure = panicToError(r)
+					mut.Unlock()
+				}
+			}()
 			switch ok, matches, err := j.JoinMatchFunc(lk, lv, l, r); {
 			case ok:
 				{
@@ -245,7 +253,9 @@ func (j *Join) ParallelJoinFunc(l, r *HashedTable) ([]any, error) {
 				}
 			case !ok && err != nil:
 				{
-					panic(err)
+					mut.Lock()
+					failure = err
+					mut.Unlock()
 				}
 			default:
 				{
@@ -255,6 +265,9 @@ func (j *Join) ParallelJoinFunc(l, r *HashedTable) ([]any, error) {
 		}(lk, lv)
 	}
 	wg.Wait()
+	if failure != nil {
+		return nil, failure
+	}
 	return slice, nil
 }
 
@@ -341,10 +354,18 @@ func (j *Join) ParallelHashJoinFunc(l, r *HashedTable) ([]any, error) {
 	var mut sync.Mutex
 	var wg sync.WaitGroup
 	slice := make([]any, 0)
+	var failure error
 	for lk := range l.Rows {
 		wg.Add(1)
 		go func(lk string) {
 			defer wg.Done()
+			defer func() {
+				if r := recover(); r != nil {
+					mut.Lock()
+					failure = panicToError(r)
+					mut.Unlock()
+				}
+			}()
 			switch ok, matches, err := j.HashJoinMatchFunc(lk, l, r); {
 			case ok:
 				{
@@ -354,7 +375,9 @@ func (j *Join) ParallelHashJoinFunc(l, r *HashedTable) ([]any, error) {
 				}
 			case !ok && err != nil:
 				{
-					panic(err)
+					mut.Lock()
+					failure = err
+					mut.Unlock()
 				}
 			default:
 				{
@@ -364,6 +387,9 @@ func (j *Join) ParallelHashJoinFunc(l, r *HashedTable) ([]any, error) {
 		}(lk)
 	}
 	wg.Wait()
+	if failure != nil {
+		return nil, failure
+	}
 	return slice, nil
 }
 
